@@ -242,11 +242,15 @@ namespace TsV.Lang.TypeScript
 open TsV TsV.Lang
 
 /-- all output files of one run, the printer state threaded through the crates in map order -/
-def generateAll (U : UnicodeOps) (cfg : Cfg) :
+def generateFrom (U : UnicodeOps) (cfg : Cfg) :
     List (Str × ParsedData × Option Pipeline.ScopedCrateTypes) → CustomMap → Outcome (List (Str × Str))
   | [], _ => .ok []
   | (crate, d, imps) :: rest, st =>
     (generate U cfg d imps st).bind fun (text, st) =>
-    (generateAll U cfg rest st).bind fun outs => .ok ((crate, text) :: outs)
+    (generateFrom U cfg rest st).bind fun outs => .ok ((crate, text) :: outs)
+
+def generateAll (E : Ext) (cfg : Cfg) (_multiFile : Bool)
+    (jobs : List (Str × ParsedData × Option Pipeline.ScopedCrateTypes)) : Outcome (List (Str × Str)) :=
+  generateFrom E.U cfg jobs []
 
 end TsV.Lang.TypeScript
